@@ -279,6 +279,55 @@ theorem autohint_align_weak_points_terminates (o : Nat → Nat → Bool) (h : Na
   · exact ⟨s', h1, h2⟩
   · simp at h3
 
+/-! ### Axis::insert_edge -/
+
+/-- **insert_edge terminates**: `while ix > 0 { …; ix -= 1 }` exits within `ix + 1` body executions for every oracle,
+and neither `ix - 1` (the `prev_ix`) nor `ix -= 1` underflows (a `.trap` would make `iterG` return `none`) -/
+theorem autohint_insert_edge_terminates (o : Nat → Nat → Bool) (h : Nat → Nat → Nat) (s : St) :
+    ∃ s', iterG (insertEdgeStep o h) (s.last + 1) s = some (false, s') ∧ s'.last ≤ s.last := by
+  obtain ⟨e, s', h1, h2, h3⟩ := iterG_measure (insertEdgeStep o h) (fun _ => True) (fun s => s.last)
+    (fun a b => b.last ≤ a.last) (fun _ => True) (fun _ => False) (by intro a b c h1 h2; omega) (by
+      intro s _
+      unfold insertEdgeStep
+      simp only []
+      repeat' split
+      all_goals first
+        | (left; exact ⟨_, rfl, by dsimp only; omega, trivial⟩)
+        | (right; right; refine ⟨_, rfl, trivial, ?_⟩; dsimp only; omega)
+        | (exfalso; omega)
+        | fail "insert_edge: a path continues without `ix > 0` tested and `ix -= 1`, or a control subtraction can underflow")
+    (s.last + 1) s trivial (by omega)
+  cases e
+  · exact ⟨s', h1, h2⟩
+  · simp at h3
+
+/-! ### align_strong_points: binary search over the edges -/
+
+/-- **The edge binary search terminates** for every comparison oracle: `mid = (min + max) >> 1` satisfies
+`min ≤ mid < max`, so `max = mid` and `min = mid + 1` both shrink `max - min`; it exits within `max - min + 1`
+iterations (the real bound is logarithmic). -/
+theorem autohint_align_strong_points_bsearch_terminates (cmp : Nat → Nat → Ordering) :
+    ∀ (fuel tick mn mx : Nat), mx - mn < fuel → ∃ r, bsearch cmp fuel tick mn mx = some r := by
+  intro fuel
+  induction fuel with
+  | zero => intro _ _ _ h; omega
+  | succ f ih =>
+    intro tick mn mx hf
+    unfold bsearch
+    by_cases hlt : mn < mx
+    · simp only [hlt, if_true]
+      have hmid : mn ≤ (mn + mx) >>> 1 ∧ (mn + mx) >>> 1 < mx := by
+        rw [Nat.shiftRight_eq_div_pow]; omega
+      cases cmp ((mn + mx) >>> 1) tick with
+      | lt => exact ih _ _ _ (by omega)
+      | gt => exact ih _ _ _ (by omega)
+      | eq => exact ⟨_, rfl⟩
+    · simp [hlt]
+
+example : bsearch (fun mid _ => compare 5 mid) 9 0 0 8 = some (true, 5) := by decide
+example : bsearch (fun _ _ => .gt) 9 0 0 8 = some (false, 8) := by decide
+example : bsearch (fun _ _ => .lt) 2 0 0 8 = none := by decide
+
 /-! ### From the entry states of the Rust
 
 Indices are offsets from `contour.first()`, so `contour.first()` is 0 and a contour (`first_ix ..= last_ix`) has
@@ -340,6 +389,9 @@ guard removed it would: `0 - 1` -/
 example : contourPrev 0 3 0 = some 3 ∧ contourPrev 2 5 2 = some 5 ∧ contourPrev 2 5 4 = some 3 := by decide
 
 /-! ### Non-vacuity -/
+
+/-- insert_edge, never ordered: 3 → 2 → 1 → 0, the 4th execution sees `ix = 0` -/
+example : iterGCount (insertEdgeStep (fun _ _ => false) (fun _ _ => 0)) 4 ⟨3, 0, 0, 0⟩ = some (false, ⟨0, 0, 0, 4⟩, 4) := by decide
 
 /-- compute_directions, every point "near": once around a 4-point contour from `first_ix = 2` -/
 example : iterCount (dirsStep (fun _ _ => true) (fun _ _ => 0)) 5 ⟨2, 2, 4, 0⟩ = some (⟨2, 2, 4, 4⟩, 4) := by decide
